@@ -20,7 +20,7 @@ Fixpoint img (t : ntree) : Compile.tree :=
   | NPre i d _ a => Compile.T i d None (Some (img a))
   | NSuf i d _ a => Compile.T i d (Some (img a)) None
   | NBin i d _ l r => Compile.T i d (Some (img l)) (Some (img r))
-  | NGroup i _ a => Compile.T i D_Group None (Some (img a))
+  | NGroup b i _ a => Compile.T i (bdef b) None (Some (img a))
   end.
 
 Lemma img_ix : forall t, t_ix (img t) = nid t.
@@ -28,7 +28,7 @@ Proof. destruct t; reflexivity. Qed.
 
 Lemma denotes_tree_at : forall ns t p, denotes ns p t -> tree_at ns (img t).
 Proof.
-  intros ns. induction t as [i d k|i d k a IH|i d k a IH|i d k l IHl r IHr|i k a IH]; intros p D;
+  intros ns. induction t as [i d k|i d k a IH|i d k a IH|i d k l IHl r IHr|b i k a IH]; intros p D;
     simpl in D; destruct D as (n & Hn & A); cbn [img tree_at oix].
   - destruct A as (_ & A2 & _ & _ & A5 & A6 & _). split; [exists n; auto | auto].
   - destruct A as (_ & A2 & _ & A4 & A5 & _ & A7). split; [|split; [exact I | eapply IH; exact A7]].
@@ -43,7 +43,7 @@ Qed.
 
 Lemma img_indices : forall t x, In x (indices (img t)) <-> has_id t x.
 Proof.
-  induction t as [i d k|i d k a IH|i d k a IH|i d k l IHl r IHr|i k a IH]; intros x; cbn [img indices has_id In app].
+  induction t as [i d k|i d k a IH|i d k a IH|i d k l IHl r IHr|b i k a IH]; intros x; cbn [img indices has_id In app].
   - split; [intros [H|[]]; auto | intros ->; auto].
   - rewrite IH. split; [intros [H|H]; auto | intros [->|H]; auto].
   - rewrite app_nil_r, IH. split; [intros [H|H]; auto | intros [->|H]; auto].
@@ -53,7 +53,7 @@ Qed.
 
 Lemma ordered_nodup : forall t, ordered t -> NoDup (indices (img t)).
 Proof.
-  induction t as [i d k|i d k a IH|i d k a IH|i d k l IHl r IHr|i k a IH]; cbn [img indices ordered app]; intros O.
+  induction t as [i d k|i d k a IH|i d k a IH|i d k l IHl r IHr|b i k a IH]; cbn [img indices ordered app]; intros O.
   - constructor; [intros [] | constructor].
   - destruct O as [H1 H2]. constructor; [|apply IH; exact H2].
     intros Hx. apply img_indices in Hx. pose proof (ordered_range a i H2 Hx). lia.
